@@ -25,6 +25,9 @@ structure St where
   sim : Option (SecCtx × RefState) := none     -- section being interpreted, reference state
   simArch : Option Arch := none
   dead : Bool := false                            -- reference interpreter has no meaning from here on
+  net : Option (List SecCtx × List (Topology.Bond × Topology.Bond) × List RefState × List Arch × List Nat) := none
+                                                  -- whole machine: contexts, bonds, states, archs, address shifts
+  netFirst : Bool := true
 
 def errName : Err → String
   | .dupsymbol => "dupsymbol" | .entry => "entry" | .nomatch => "nomatch" | .notfound => "notfound"
@@ -44,7 +47,7 @@ def dumpRef (a : Arch) (c : SecCtx) (delta : Nat) (s : RefState) : String :=
   s!"X pc={delta + c.addr s.pos} r={joinN regs} o={joinN outs} ov={joinB ov} ir={joinB ir} d={joinN d}"
 
 def facts (src : Source) : String :=
-  let used := src.cps.filterMap fun c => src.sections.find? (·.name == c.romcode)
+  let used := src.cps.filterMap fun c => src.sections.reverse.find? (·.name == c.romcode)
   let ef := used.all fun s => entryFirst s.lines
   let lj := used.any fun s => s.lines.any fun l => (l.op == "j" || l.op == "jmp" || l.op == "jz") && l.args.any (fun a => match a with | .num _ => true | _ => false)
   s!"P entryfirst={if ef then 1 else 0} litjump={if lj then 1 else 0}"
@@ -68,7 +71,7 @@ def step (st : St) (line : String) : St × List String :=
     | some src, some bm =>
       match src.cps[k]?, bm.cps[k]? with
       | some c, some cp =>
-        match src.sections.find? (·.name == c.romcode) with
+        match src.sections.reverse.find? (·.name == c.romcode) with
         | some sec =>
           let ctx := SecCtx.of src sec
           match refInit ctx with
@@ -80,6 +83,37 @@ def step (st : St) (line : String) : St × List String :=
         | none => ({ st with sim := none }, [line, "X nosection"])
       | _, _ => ({ st with sim := none }, [line, "X nocp"])
     | _, _ => ({ st with sim := none }, [line])
+  | ["BSIM"] =>
+    match st.parsed, st.bm with
+    | some src, some bm =>
+      let secs := src.cps.map fun c => src.sections.reverse.find? (·.name == c.romcode)
+      let ctxs := secs.filterMap fun o => o.map (SecCtx.of src)
+      let inits := ctxs.filterMap refInit
+      if ctxs.length == src.cps.length && inits.length == ctxs.length then
+        let deltas := ctxs.map fun c => if st.fix && !(entryFirst c.lines) then 1 else 0
+        ({ st with net := some (ctxs, netOf src, inits, bm.cps.map (·.arch), deltas), netFirst := true, sim := none, dead := false }, [line])
+      else ({ st with net := none, sim := none }, [line, "BX noentry"])
+    | _, _ => ({ st with net := none, sim := none }, [line])
+  | "BT" :: _ => (st, [line])
+  | "BV" :: rest =>
+    match st.net, st.bm with
+    | some (ctxs, net, sts, archs, deltas), some bm =>
+      if st.dead then (st, [line, "BX undefined"]) else
+      let ins := nats ((kv rest "in").getD "")
+      let iv := bools ((kv rest "iv").getD "")
+      let orr := bools ((kv rest "or").getD "")
+      let ext : ExtEnv := { inputs := fun k => ins.getD k 0, inValid := fun k => iv.getD k false, outRecv := fun k => orr.getD k false }
+      let hold : Nat → Bool := fun p => st.netFirst && deltas.getD p 0 == 1
+      match netStep ctxs net ext hold sts with
+      | none => ({ st with dead := true }, [line, "BX undefined"])
+      | some sts' =>
+        let no := bm.topo.outputs
+        let ni := bm.topo.inputs
+        let outs := (List.range no).map fun r => extOut net ext sts' r
+        let bx := s!"BX o={joinN (outs.map (·.1))} ov={joinB (outs.map (·.2))} ir={joinB ((List.range ni).map fun r => extInRecv net ext sts' r)}"
+        let xs := (ctxs.zip sts').zipIdx.map fun ((c, s), p) => dumpRef (archs.getD p default) c (deltas.getD p 0) s
+        ({ st with net := some (ctxs, net, sts', archs, deltas), netFirst := false }, [line, bx] ++ xs)
+    | _, _ => (st, [line])
   | "T" :: _ => (st, [line])
   | "V" :: rest =>
     match st.sim, st.simArch with
